@@ -188,7 +188,23 @@ pub fn canon_name_text(t: &str) -> String {
         let mut parts = range.split(':');
         let a = parts.next()?;
         let bq = parts.next();
-        if parts.next().is_some() || !is_cell(a) || !bq.map_or(true, is_cell) {
+        if parts.next().is_some() {
+            return None;
+        }
+        // cell, cell:cell, or a whole-column / whole-row pair ($A:$B, $1:$3)
+        let is_col = |s: &str| {
+            let s = s.strip_prefix('$').unwrap_or(s);
+            (1..=3).contains(&s.len()) && s.chars().all(|c| c.is_ascii_uppercase())
+        };
+        let is_row = |s: &str| {
+            let s = s.strip_prefix('$').unwrap_or(s);
+            !s.is_empty() && s.chars().all(|c| c.is_ascii_digit())
+        };
+        let ok = match bq {
+            None => is_cell(a),
+            Some(bq) => (is_cell(a) && is_cell(bq)) || (is_col(a) && is_col(bq)) || (is_row(a) && is_row(bq)),
+        };
+        if !ok {
             return None;
         }
         Some((sheet, range))
@@ -281,14 +297,50 @@ fn project_sheet(ws: &Worksheet) -> SheetProj {
         let sq = cf.get_sequence_of_references().get_sqref();
         cfs.push((format!("{} (range list)", sq), vec![("rules", cf.get_conditional_collection().len().to_string())]));
         for r in cf.get_conditional_collection() {
-            let dxf = match r.get_style() {
-                None => "none".to_string(),
-                Some(st) => format!(
-                    "font={} bg={}",
-                    st.get_font().map_or("none".to_string(), |f| format!("bold={} italic={} color={}", b(f.get_bold()), b(f.get_italic()), f.get_color().get_argb())),
-                    st.get_background_color().map_or("none".to_string(), |c| c.get_argb().to_string())
-                ),
-            };
+            // the whole differential style, part by part (font, fill, border, alignment are what a
+            // dxf carries), so that a key says which part a rule got from a sibling
+            let side = |x: &umya_spreadsheet::Border| format!("{}/{}", x.get_border_style(), color_item(x.get_color()));
+            let st = r.get_style();
+            let dxf_font = st.map_or("no-style".to_string(), |st| {
+                st.get_font().map_or("none".to_string(), |f| {
+                    format!(
+                        "name={} size={:?} bold={} italic={} underline={} strike={} color={}",
+                        f.get_name(),
+                        f.get_size(),
+                        b(f.get_bold()),
+                        b(f.get_italic()),
+                        f.get_underline(),
+                        b(f.get_strikethrough()),
+                        color_item(f.get_color())
+                    )
+                })
+            });
+            let dxf_fill = st.map_or("no-style".to_string(), |st| {
+                st.get_fill().and_then(|f| f.get_pattern_fill()).map_or("none".to_string(), |pf| {
+                    format!(
+                        "pattern={:?} fg={} bg={}",
+                        pf.get_pattern_type(),
+                        pf.get_foreground_color().map_or("none".to_string(), color_item),
+                        pf.get_background_color().map_or("none".to_string(), color_item)
+                    )
+                })
+            });
+            let dxf_border = st.map_or("no-style".to_string(), |st| {
+                st.get_borders().map_or("none".to_string(), |bs| {
+                    format!(
+                        "left={} right={} top={} bottom={} diagonal={}",
+                        side(bs.get_left()),
+                        side(bs.get_right()),
+                        side(bs.get_top()),
+                        side(bs.get_bottom()),
+                        side(bs.get_diagonal())
+                    )
+                })
+            });
+            let dxf_align = st.map_or("no-style".to_string(), |st| {
+                st.get_alignment()
+                    .map_or("none".to_string(), |al| format!("horizontal={:?} vertical={:?} wrap={} rotation={}", al.get_horizontal(), al.get_vertical(), b(al.get_wrap_text()), al.get_text_rotation()))
+            });
             let vis = |cfvo: &[umya_spreadsheet::ConditionalFormatValueObject], cols: &[umya_spreadsheet::Color]| {
                 format!(
                     "cfvo={:?} colors={:?}",
@@ -302,7 +354,10 @@ fn project_sheet(ws: &Worksheet) -> SheetProj {
                     ("type", cf_type_name(r.get_type()).to_string()),
                     ("operator", cf_op_name(r.get_operator()).to_string()),
                     ("formula", r.get_formula().map_or("none".to_string(), |f| f.get_address_str())),
-                    ("dxf", dxf),
+                    ("dxf-font", dxf_font),
+                    ("dxf-fill", dxf_fill),
+                    ("dxf-border", dxf_border),
+                    ("dxf-alignment", dxf_align),
                     ("text", r.get_text().to_string()),
                     ("percent", b(r.get_percent())),
                     ("bottom", b(r.get_bottom())),
@@ -573,6 +628,10 @@ pub fn diff(exp: &Proj, got: &Proj) -> Fails {
 // ---------------------------------------------------------------------------------------
 // the spec must be what the API shows before saving (otherwise the case says nothing)
 
+fn field<'a>(i: &'a Item, name: &str) -> &'a str {
+    i.iter().find(|(f, _)| *f == name).map_or("", |(_, v)| v.as_str())
+}
+
 fn spec_agrees(spec: &AnnotWb, p: &Proj) -> Result<(), String> {
     let kept = spec.kept();
     if kept.len() != p.sheets.len() {
@@ -647,7 +706,15 @@ fn spec_agrees(spec: &AnnotWb, p: &Proj) -> Result<(), String> {
             let a = c.sqref.iter().map(|r| r.a1()).collect::<Vec<_>>().join(" ");
             for r in &c.rules {
                 match find("cond-format", &format!("{} #{}", a, r.priority)) {
-                    Some(i) if i[0].1 == CF_TYPES[r.kind as usize] && i[2].1 == r.formula.clone().unwrap_or("none".to_string()) && i[4].1 == r.text.clone().unwrap_or_default() => {}
+                    Some(i)
+                        if field(i, "type") == CF_TYPES[r.kind as usize]
+                            && field(i, "formula") == r.formula.clone().unwrap_or("none".to_string())
+                            && field(i, "text") == r.text.clone().unwrap_or_default()
+                            && (field(i, "dxf-font") == "no-style") == r.dxf.is_none()
+                            && r.dxf.as_ref().map_or(true, |d| {
+                                let left = d.border_style > 0 && (d.border_sides & 15 == 0 || d.border_sides & 1 == 1);
+                                !left || field(i, "dxf-border").contains(&format!("left={}/", BORDER_STYLES[(d.border_style as usize - 1) % BORDER_STYLES.len()]))
+                            }) => {}
                     o => return Err(format!("sheet {}: rule {} #{} shows as {:?}", k, a, r.priority, o)),
                 }
             }
@@ -976,7 +1043,44 @@ fn label(spec: &AnnotWb, obs: &mut Obs) {
         for c in &s.cond_formats {
             for r in &c.rules {
                 obs.class(format!("cf:{}", CF_TYPES[r.kind as usize]));
+                if r.formula.as_deref() == Some("") {
+                    obs.class("empty:cf-formula");
+                }
+                if r.text.as_deref() == Some("") {
+                    obs.class("empty:cf-text");
+                }
+                if r.cfvo.iter().any(|(_, v)| v.as_deref() == Some("")) {
+                    obs.class("empty:cfvo-val");
+                }
             }
+        }
+        for v in &s.validations {
+            let f1 = v.formula1.as_deref();
+            match (f1, v.formula2.as_deref()) {
+                (Some(a), Some("")) if !a.is_empty() => obs.class("empty:dv-formula2-behind-formula1"),
+                (_, Some("")) => obs.class("empty:dv-formula2"),
+                _ => {}
+            }
+            if f1 == Some("") {
+                obs.class("empty:dv-formula1");
+            }
+            for (n, t) in [("prompt-title", &v.prompt_title), ("prompt", &v.prompt), ("error-title", &v.error_title), ("error", &v.error)] {
+                if t.as_deref() == Some("") {
+                    obs.class(format!("empty:dv-{}", n));
+                }
+            }
+        }
+        if s.links.iter().any(|l| l.tooltip.as_deref() == Some("")) {
+            obs.class("empty:tooltip");
+        }
+        if s.header.as_deref() == Some("") {
+            obs.class("empty:header");
+        }
+        if s.footer.as_deref() == Some("") {
+            obs.class("empty:footer");
+        }
+        if s.comments.iter().any(|c| c.runs.iter().any(|r| r.is_empty())) {
+            obs.class("empty:comment-run");
         }
         for (k, on) in [
             ("auto-filter", s.auto_filter.is_some()),
@@ -990,6 +1094,36 @@ fn label(spec: &AnnotWb, obs: &mut Obs) {
             if on {
                 obs.class(k);
             }
+        }
+    }
+    {
+        // differential styles of the whole workbook: pairs that differ in exactly one part
+        let parts = |d: &DxfSpec| {
+            let border = if d.border_style == 0 { String::new() } else { format!("{}/{:?}/{}", d.border_style, d.border_argb, if d.border_sides & 15 == 0 { 15 } else { d.border_sides & 15 }) };
+            [format!("{}{}{}{:?}", d.bold, d.italic, d.strike, d.font_argb), format!("{:?}", d.bg_argb), border, format!("{}{}", d.align, d.wrap)]
+        };
+        let mut all: Vec<(usize, [String; 4])> = Vec::new();
+        for i in &kept {
+            for c in &spec.sheets[*i].cond_formats {
+                for r in &c.rules {
+                    if let Some(d) = &r.dxf {
+                        all.push((*i, parts(d)));
+                    }
+                }
+            }
+        }
+        let names = ["font", "fill", "border", "alignment"];
+        let mut seen = BTreeSet::new();
+        for (x, (sx, a)) in all.iter().enumerate() {
+            for (sy, bq) in all.iter().skip(x + 1) {
+                let differing: Vec<usize> = (0..4).filter(|k| a[*k] != bq[*k]).collect();
+                if differing.len() == 1 {
+                    seen.insert(format!("dxf:pair-differs-only-in-{}{}", names[differing[0]], if sx != sy { "/across-sheets" } else { "" }));
+                }
+            }
+        }
+        for l in seen {
+            obs.class(l);
         }
     }
     if !spec.wb_names.is_empty() {
@@ -1018,6 +1152,9 @@ fn check_rounds(case: &Case, obs: &mut Obs, rounds: usize) -> Verdict {
     };
     let exp = project(&book);
     if let Err(e) = spec_agrees(spec, &exp) {
+        if std::env::var("VERIF_SHOW_DISCARDS").is_ok() {
+            eprintln!("discard: {}", e);
+        }
         return Verdict::Discard(format!("pre-save model mismatch: {}", e));
     }
     let mut fails = Fails::new();
@@ -1300,7 +1437,7 @@ fn subs() -> Vec<Box<dyn DynSub>> {
         Box::new(Sub {
             name: "roundtrip",
             strategy: strategy_clean,
-            cases: (220, 6000),
+            cases: (280, 6000),
             check: check_clean,
             max_shrink_iters: 800,
         }),
